@@ -11,7 +11,7 @@
      copy_pre  = both buffers are large enough for the addressed ranges, allocations < 2^61 bytes
      buf_pre   = size <= allocation, allocation < 2^61 bytes, offset is a size_t, bytes < 256. *)
 From Verif Require Import Bits CPrims CPrimsThm F16 F16Thm F16ArithThm CppPrims CppPrimsThm CppPrimsMoreThm PyPrims PyPrimsThm PyPrimsMoreThm PyPrimsStdThm PyPrimsBitsThm PyPrimsForkThm PrimsExt PrimsExtThm
-  CPrimsW CPrimsWThm F16FlocqDefs F16Flocq PyComposeThm CppComposeThm Gen_Pin_c14py Gen_Pin_c14c PyPrimsTotalThm CppPrimsFix CppPrimsFixThm.
+  CPrimsW CPrimsWThm F16FlocqDefs F16Flocq PyComposeThm CppComposeThm Gen_Pin_c14py Gen_Pin_c14c PyPrimsTotalThm.
 Open Scope N_scope.
 
 (* ---------------------------------------------------------------------------------------------
@@ -321,51 +321,33 @@ Theorem C14_cpp_set_uxx_every_offset :
 Proof. exact cpp_set_uxx_every_offset_b. Qed.
 Print Assumptions C14_cpp_set_uxx_every_offset.
 
-(* padAndMoveToAlignment(n) and subspan(bits_at, size_bits) take size_t arguments; C14_cpp_pad_and_subspans above covers n <= 255 and
-   offsets/sizes whose sums do not wrap.  Outside, the text currently in /repo is WRONG (known findings F-BITSPAN-PAD-TRUNC,
-   F-BITSPAN-SUBSPAN-WRAP, reproduced on the rendered header on every run): the padding amount is cast to uint8_t, so
-   padAndMoveToAlignment(512) at cursor 8 reports success with the cursor at 256; `offset_bits_ + bits_at` and
-   `new_offset_bits + size_bits` wrap, so subspan(2^64 - 7, 8) at cursor 8 and subspan(0, 2^64 - 6) at cursor 7 report success. *)
-Theorem C14_cpp_pad_truncation_refuted :
-  exists s n, span_ok s /\ bytes_ok (sp_data s) /\ 1 <= n < two64 /\
-    exists r o, padAndMoveToAlignment s n = Some (inl (r, o)) /\ o mod n <> 0.
-Proof. exact pad_current_truncates_refuted. Qed.
-Print Assumptions C14_cpp_pad_truncation_refuted.
-
-Theorem C14_cpp_subspan_wrap_refuted :
-  exists s, span_ok s /\
-    (exists r, subspan2 s (two64 - 7) 8 = inl r) /\
-    (exists r, subspan2 (mkspan (sp_data s) (sp_size s) 7) 0 (two64 - 6) = inl r).
-Proof. exact subspan2_current_wraps_refuted. Qed.
-Print Assumptions C14_cpp_subspan_wrap_refuted.
-
-(* With design_notes/C14_bitspan_wrap_fix.patch (Prims/CppPrimsFix.v) both members meet their contract for EVERY value of their
-   size_t arguments: the cursor ends on a multiple of n (or the buffer is too small), exactly the padding bits are zeroed ... *)
+(* padAndMoveToAlignment(n) and subspan(bits_at, size_bits) over the WHOLE range of their size_t arguments (text of /repo fcc36ca;
+   C14_cpp_pad_and_subspans above is the instance n <= 255 / sums that do not wrap, which Codec cites).  The text of before - padding
+   cast to uint8_t, wrapping sums - and its refutations are History/C14_history.v (F-BITSPAN-PAD-TRUNC, F-BITSPAN-SUBSPAN-WRAP: fixed).
+   Every alignment 1 <= n < 2^64: the cursor ends on a multiple of n and exactly the padding bits are zeroed, or the buffer is
+   reported too small when the padding does not fit ... *)
 Theorem C14_cpp_pad_every_alignment :
-  (forall s n, span_okb s = true -> (1 <=? n) && (n <? two64) = true ->
-     let pad := (n - sp_off s mod n) mod n in
-     if sp_bits s <? pad
-     then padAndMoveToAlignment_fix s n = Some (inr TooSmall)
-     else exists r, padAndMoveToAlignment_fix s n = Some (inl (r, sp_off s + pad)) /\ (sp_off s + pad) mod n = 0 /\
-            List.length r = List.length (sp_data s) /\
-            forall p, bit r p = if (sp_off s <=? p) && (p <? sp_off s + pad) then false else bit (sp_data s) p) /\
-  (forall s n, n <= 255 -> padAndMoveToAlignment_fix s n = padAndMoveToAlignment s n).
-Proof. split; [exact pad_and_move_fix_spec_b|exact pad_fix_is_current_on_uint8]. Qed.
+  forall s n, span_okb s = true -> (1 <=? n) && (n <? two64) = true ->
+    let pad := (n - sp_off s mod n) mod n in
+    if sp_bits s <? pad
+    then padAndMoveToAlignment s n = Some (inr TooSmall)
+    else exists r, padAndMoveToAlignment s n = Some (inl (r, sp_off s + pad)) /\ (sp_off s + pad) mod n = 0 /\
+           List.length r = List.length (sp_data s) /\
+           forall p, bit r p = if (sp_off s <=? p) && (p <? sp_off s + pad) then false else bit (sp_data s) p.
+Proof. exact pad_and_move_every_alignment_b. Qed.
 Print Assumptions C14_cpp_pad_every_alignment.
 
 (* ... and subspan(bits_at, size_bits) succeeds exactly when, in natural-number arithmetic, the byte position (offset + bits_at)/8 is
    inside the buffer and the remaining bytes hold (offset + bits_at) mod 8 + size_bits bits; the result then addresses those bytes *)
 Theorem C14_cpp_subspan_every_offset :
-  (forall s bits_at size_bits, span_okb s = true -> (bits_at <? two64) && (size_bits <? two64) = true ->
-     let k := (sp_off s + bits_at) / 8 in
-     let o := (sp_off s + bits_at) mod 8 in
-     if (sp_size s <? k) || ((sp_size s - k) * 8 <? o + size_bits)
-     then subspan2_fix s bits_at size_bits = inr TooSmall
-     else subspan2_fix s bits_at size_bits = inl (mkspan (skipn (N.to_nat k) (sp_data s)) ((o + size_bits) / 8) o) /\
-          k + (o + size_bits) / 8 <= sp_size s) /\
-  (forall s bits_at size_bits, span_ok s -> sp_off s + bits_at < two64 -> size_bits + 8 < two64 ->
-     subspan2_fix s bits_at size_bits = subspan2 s bits_at size_bits).
-Proof. split; [exact subspan2_fix_spec_b|exact subspan2_fix_is_current_without_wrap]. Qed.
+  forall s bits_at size_bits, span_okb s = true -> (bits_at <? two64) && (size_bits <? two64) = true ->
+    let k := (sp_off s + bits_at) / 8 in
+    let o := (sp_off s + bits_at) mod 8 in
+    if (sp_size s <? k) || ((sp_size s - k) * 8 <? o + size_bits)
+    then subspan2 s bits_at size_bits = inr TooSmall
+    else subspan2 s bits_at size_bits = inl (mkspan (skipn (N.to_nat k) (sp_data s)) ((o + size_bits) / 8) o) /\
+         k + (o + size_bits) / 8 <= sp_size s.
+Proof. exact subspan2_every_offset_b. Qed.
 Print Assumptions C14_cpp_subspan_every_offset.
 
 
@@ -786,7 +768,7 @@ Print Assumptions C14_py_cursor_sequences.
 (* Sequences of cursor operations on a C++ bitspan (setUxx + add_offset, setZeros + add_offset, padAndMoveToAlignment): if no
    member reports an error, the span stays well formed, the cursor only moves forward (by at most the requested lengths) and every
    bit before the old cursor and at or after the new one is untouched.  No premise on the cursor: that it stays below 2^64 follows
-   from success (saturating capacity tests); cpp_op_ok only states the argument types (size_t length, uint8_t alignment >= 1). *)
+   from success (saturating capacity tests); cpp_op_ok only states the argument types (size_t length, size_t alignment >= 1). *)
 Theorem C14_cpp_cursor_sequences :
   forall (ops : list cpp_op) (s s' : span),
     span_ok s -> bytes_ok (sp_data s) -> Forall cpp_op_ok ops ->
@@ -820,13 +802,10 @@ Proof. reflexivity. Qed.
    for every Jinja branch (target_endianness any|little|big x enable_serialization_asserts x omit_float_serialization_support; C++
    also for the standards c++14, c++17, c++17-pmr, cetl++14-17, c++20), drops comments and white space, cuts the token stream into
    function definitions (+ one file-scope remainder, so every token is covered) and defines `pin_c14c_ok` only when each stream
-   equals tools/translators/pins/c14c.txt (the text in /repo) or pins/c14c_fixed.txt (with the pending bitspan patch; which of the
-   two is LIVE is fixed by C14_bitspan_fix_state below).  The hashes of the C part and of the C++ part of the regenerated dump must
-   be the ones the model files name as the text they model. *)
+   equals tools/translators/pins/c14c.txt (ONE accepted shape: the text of /repo fcc36ca).  The hashes of the C part and of the C++
+   part of the regenerated dump must be the ones the model files name as the text they model. *)
 Example C14_c_cpp_support_token_streams_pinned :
-  pin_c14c_ok = true /\ pin_c14c_sha_c = modelled_c_header_sha /\
-  pin_c14c_sha_cpp = (if pin_c14c_bitspan_pad_wide_present && pin_c14c_bitspan_subspan_saturating_present
-                      then modelled_cpp_header_sha_fix else modelled_cpp_header_sha).
+  pin_c14c_ok = true /\ pin_c14c_sha_c = modelled_c_header_sha /\ pin_c14c_sha_cpp = modelled_cpp_header_sha.
 Proof. repeat split; reflexivity. Qed.
 
 (* regenerated fix fact, ba46e0a (F-SETUXX-OFFSET-WRAP): in every rendering nunavutSetUxx / bitspan::setUxx test
@@ -834,10 +813,10 @@ Proof. repeat split; reflexivity. Qed.
 Example C14_setuxx_saturating_check_live : pin_c14c_setuxx_saturating_check_present = true.
 Proof. reflexivity. Qed.
 
-(* STATE of the pending fix design_notes/C14_bitspan_wrap_fix.patch (F-BITSPAN-PAD-TRUNC, F-BITSPAN-SUBSPAN-WRAP): NOT in /repo.
-   When it lands both facts regenerate as `true`, this obligation breaks and is flipped to `= true /\ ... = true` (from then on a
-   revert breaks it again); C14_cpp_pad_truncation_refuted / C14_cpp_subspan_wrap_refuted then move to History with the old text. *)
-Example C14_bitspan_fix_state : pin_c14c_bitspan_pad_wide_present = false /\ pin_c14c_bitspan_subspan_saturating_present = false.
+(* regenerated fix facts, fcc36ca (F-BITSPAN-PAD-TRUNC, F-BITSPAN-SUBSPAN-WRAP): in every C++ rendering padAndMoveToAlignment has no
+   static_cast<uint8_t>, and subspan(bits_at, size_bits) tests `offset_bits < bits_at` and
+   `new_offset_bits > (size_available_bits - size_bits)`; reverting the fix turns this into `false = true` *)
+Example C14_bitspan_fix_state : pin_c14c_bitspan_pad_wide_present = true /\ pin_c14c_bitspan_subspan_saturating_present = true.
 Proof. split; reflexivity. Qed.
 
 (* The truncation contract of the Python unsigned writers: for EVERY natural value (also values wider than the field) and every
